@@ -6,12 +6,12 @@ from lib.common import Broken, Violation, verdict, save_replay
 
 PROPS = {
     "C38": {
-        "text": "ConsoleAuth.tla models the console's authManager (session map token -> expiry, login, logout, requireAuth around the protected routes) and its per-address sliding-window login limiter on an integer clock; TLC checks the two C38 clauses exhaustively, both for the abstract scaled constants of the design (ttl 3, window 2, limit 2) and for the code's own constants (ttl 12 h, window 60 s, limit 20, tick sizes 30 s / 4 h, login bursts). TLC-generated histories (simulation + counterexamples of four named wrong designs) are replayed against the real mux built by NewMux with httptest recorders in a testing/synctest bubble (virtual time), every protected route being requested for every cookie list (none, forged, an issued token, two same-named session cookies); TLC validates the recorded exchanges: the C38 predicates over the observed histories (layer O) and step-by-step conformance incl. the session map and limiter hit lists (layer C).",
+        "text": "ConsoleAuth.tla models the console's authManager (session map token -> expiry, login, logout, requireAuth around the protected routes) and its per-address sliding-window login limiter on an integer clock; TLC checks the two C38 clauses exhaustively, both for the abstract scaled constants of the design (ttl 3, window 2, limit 2) and for the code's own constants (ttl 12 h, window 60 s, limit 20, tick sizes 30 s / 4 h, login bursts). TLC-generated histories (simulation + counterexamples of five named wrong designs (six searches)) are replayed against the real mux built by NewMux with httptest recorders in a testing/synctest bubble (virtual time), every protected route being requested for every cookie list (none, forged, an issued token, two same-named session cookies), interleaved with polls of the unprotected GET /ui/api/auth/session; TLC validates the recorded exchanges: the C38 predicates over the observed histories (layer O) and step-by-step conformance incl. the session map and limiter hit lists (layer C).",
         "note": "Trusted: TLC, testing/synctest virtual time, the classification of a response as rejected (401/403 or requireAuth's 503 'auth disabled'), the hand-written list of the 12 routes NewMux wraps in requireAuth. The property is read literally: an endpoint answers only live-session requests (served => live) and at most `limit` attempts per address pass the limiter in any half-open window (t-W, t]; the converse (a live session is served) is checked by the conformance layer only. The limiter/TTL constants cannot be configured through NewMux, so the real constants are used and the time axis is sampled with 30 s and 4 h ticks.",
         "technique": "TLA+ model (ConsoleAuth.tla) + TLC exhaustive check + replay of TLC behaviours into the real console mux under virtual time + TLC trace validation (observation and conformance layers)",
     }
 }
-DEVIATIONS = {"NoExpiry": "C38_SessionRequired", "LogoutKeeps": "C38_SessionRequired", "LimiterPerWindowStart": "C38_RateLimit", "AnyCookieValid": "C38_SessionRequired"}
+DEVIATIONS = {"NoExpiry": "C38_SessionRequired", "LogoutKeeps": "C38_SessionRequired", "LimiterPerWindowStart": "C38_RateLimit", "AnyCookieValid": "C38_SessionRequired", "SessionPollRevives": "C38_SessionRequired", "SessionPollRevivesStale": "C38_SessionRequired"}
 SIM_LEN = 24  # MaxOps of Sim_ConsoleAuth.cfg
 TRACE_CFG = """CONSTANTS
  Addrs = {"a1","a2"}
@@ -25,6 +25,8 @@ TRACE_CFG = """CONSTANTS
  DevNoExpiry = FALSE
  DevLogoutKeeps = FALSE
  DevLimiterPerWindowStart = FALSE
+ PollOnlyStale = FALSE
+ DevSessionPollRevives = FALSE
  DevAnyCookieValid = FALSE
  PairJars = TRUE
 INIT TInit
